@@ -828,13 +828,13 @@ def case_split(prog, A, l, taint_mode="abort"):
     return finish(case, w)
 
 
-def case_stack(prog, A, n_first=True, taint_mode="abort"):
-    """flodym_array_stack of arrays over A along a new dimension"""
+def case_stack(prog, A, n_first=True, taint_mode="abort", mixed_orders=False):
+    """flodym_array_stack of arrays over A along a new dimension (mixed_orders: the second array is stored in reverse dimension order)"""
     w = World(prog, taint_mode)
-    case = Case("stack", "flodym_array_stack", "flodym_array_stack", {"op": "flodym_array_stack", "dims": list(A)})
+    case = Case("stack", "flodym_array_stack", "flodym_array_stack", {"op": "flodym_array_stack", "dims": list(A), **({"second_array_stored_as": list(reversed(A))} if mixed_orders else {})})
     new = w.dim("e")
     items = w.items("e")
-    arrs = [w.array(f"x{i}", A) for i in range(3)]
+    arrs = [w.array(f"x{i}", tuple(reversed(A)) if (mixed_orders and i == 1) else A) for i in range(3)]
     newd = w.it.construct(w.Dimension, [], dict(name="ee", letter="e", items=ItemList(items[:3])))
     snaps = w.snap(*arrs)
     fn = prog.func("flodym_array_helper.py", "flodym_array_stack")
@@ -957,6 +957,8 @@ def misc_index_cases(prog, taint_mode="abort"):
                     yield lambda A=A, l=l, other=other: case_tuple_key_interleaved(prog, A, l, other, taint_mode)
             yield lambda A=A, l=l: case_split(prog, A, l, taint_mode)
         yield lambda A=A: case_stack(prog, A, taint_mode=taint_mode)
+        if len(A) >= 2:
+            yield lambda A=A: case_stack(prog, A, taint_mode=taint_mode, mixed_orders=True)
 
 
 def illformed_cases(prog, taint_mode="abort"):
